@@ -133,3 +133,39 @@ def check_scope(prog, cg, scope, an):
                 kind = "iterator" if il is not None else "loop"
                 out.append((fn, head, kind, False, (("iterator type %s is not known to be finite; " % il["iter_ty"][:80]) if il is not None else "") + why))
     return out
+
+
+def hands_on_remainder(fn, head, body):
+    """Weaker, structural form for loops the engine cannot measure: some slice-typed user variable v is (a) given to a call inside the
+    loop and (b) re-assigned, on every path from the loop head to a back edge, from a value that derives from the result of such a
+    call.  (That the callee returns a strictly shorter remainder is then an assumption, stated with the loop.)  Returns the variable's
+    name or None."""
+    latches = [b for b in fn.preds()[head] if b in body]
+    d = df.defs_of(fn)
+    for l, nm in sorted(fn.names.items()):
+        ty = fn.local_ty(l)
+        if not (ty.startswith("&[") or ty == "&str"):
+            continue
+        asg = [dd for dd in d.all(l) if dd[0] == "stmt" and dd[1] in body]
+        if not asg:
+            continue
+        good_blocks = set()
+        for dd in asg:
+            src = df.operand_trace(fn, dd[3]["rv"]["op"]) if dd[3]["rv"]["k"] == "use" else set()
+            fed = False
+            for sl in src:
+                for d2 in d.all(sl):
+                    if d2[0] in ("call", "pcall") and d2[1] in body:
+                        t = d2[2]
+                        # the call was given the variable itself (its value at that point in the iteration)
+                        if any(a.get("k") in ("copy", "move") and l in df.operand_trace(fn, a) for a in t["args"]):
+                            fed = True
+            if fed:
+                good_blocks.add(dd[1])
+        if not good_blocks:
+            continue
+        r = cfg.reachable(fn, [sx for sx in fn.succs(head) if sx in body], blocked=good_blocks)
+        # blocks of the body reachable from the head without passing a good assignment must not include a latch
+        if not [b for b in latches if b in r and b not in good_blocks]:
+            return nm
+    return None
